@@ -248,21 +248,24 @@ theorem resolve_ref (m : Method) (pass : PassKey) (rnd : Rnd C) (sk : Option C.K
     simp only [Method.resolve, Except.ok.injEq, Prod.mk.injEq] at h; rw [← h.2]; exact ⟨trivial, rfl⟩
 
 /-- a failed rekey changes nothing (one transaction) -/
-theorem rekey_err_unchanged (st : Store C I) (h : Handle C) (m : Method) (pass : PassKey) (rnd : Rnd C) (e : Err)
-    (hr : (rekey C st h m pass rnd).2 = .error e) : (rekey C st h m pass rnd).1 = st := by
-  unfold rekey at hr ⊢
-  rcases hm : m.resolve C pass rnd with e' | ⟨sk', ref⟩
-  · simp
-  · simp only [hm] at hr ⊢
-    rcases hw : rewrap C h.storeKey sk' rnd.nonce 0 st.profiles with e' | ps'
+theorem rekey_err_unchanged (g : Bool) (st : Store C I) (h : Handle C) (m : Method) (pass : PassKey) (rnd : Rnd C) (e : Err)
+    (hr : (rekeyG g C st h m pass rnd).2 = .error e) : (rekeyG g C st h m pass rnd).1 = st := by
+  unfold rekeyG at hr ⊢
+  by_cases hg : g = true ∧ m = .raw ∧ pass.str.isEmpty = true
+  · rw [if_pos hg]
+  · rw [if_neg hg] at hr ⊢
+    rcases hm : m.resolve C pass rnd with e' | ⟨sk', ref⟩
     · simp
-    · simp [hw] at hr
+    · simp only [hm] at hr ⊢
+      rcases hw : rewrap C h.storeKey sk' rnd.nonce 0 st.profiles with e' | ps'
+      · simp
+      · simp [hw] at hr
 
 /-- a successful rekey: same profiles, same profile keys (read with the new store key), same items,
     same default profile; everything sealed under the new key; the stored key reference names the
     new method and parses back -/
-theorem rekey_ok (L : C.Laws) (st st' : Store C I) (h h' : Handle C) (m : Method) (pass : PassKey) (rnd : Rnd C)
-    (hr : rekey C st h m pass rnd = (st', .ok h')) :
+theorem rekey_ok (g : Bool) (L : C.Laws) (st st' : Store C I) (h h' : Handle C) (m : Method) (pass : PassKey) (rnd : Rnd C)
+    (hr : rekeyG g C st h m pass rnd = (st', .ok h')) :
     loadAll C h'.storeKey st'.profiles = loadAll C h.storeKey st.profiles ∧
     (∃ r, loadAll C h.storeKey st.profiles = .ok r) ∧
     st'.profiles.map (·.1) = st.profiles.map (·.1) ∧
@@ -270,7 +273,10 @@ theorem rekey_ok (L : C.Laws) (st st' : Store C I) (h h' : Handle C) (m : Method
     SealedUnder C h'.storeKey st' ∧
     h'.profile = h.profile ∧ h'.pk = h.pk ∧
     (∃ ref, m.resolve C pass rnd = .ok (h'.storeKey, ref) ∧ KeyRef.parse st'.keyRef = .ok ref ∧ ref.method = m) := by
-  unfold rekey at hr
+  unfold rekeyG at hr
+  by_cases hg : g = true ∧ m = .raw ∧ pass.str.isEmpty = true
+  · rw [if_pos hg] at hr; simp at hr
+  rw [if_neg hg] at hr
   rcases hm : m.resolve C pass rnd with e' | ⟨sk', ref⟩
   · simp [hm] at hr
   · simp only [hm] at hr
@@ -466,12 +472,12 @@ theorem provision_fresh (L : C.Laws) (noItems : I) (fs fs' : Fs C I) (hfs : fs =
 
 /-- after a successful rekey, whoever opens the store holds the NEW store key and, if a method is
     named, names the NEW method -/
-theorem rekey_then_open_only_new (L : C.Laws) (st st' : Store C I) (h h' : Handle C) (m : Method) (pass : PassKey)
-    (rnd : Rnd C) (hr : rekey C st h m pass rnd = (st', .ok h'))
+theorem rekey_then_open_only_new (g : Bool) (L : C.Laws) (st st' : Store C I) (h h' : Handle C) (m : Method) (pass : PassKey)
+    (rnd : Rnd C) (hr : rekeyG g C st h m pass rnd = (st', .ok h'))
     (m0 : Option Method) (pass0 : PassKey) (p : Option Str) (hh : Handle C)
     (ho : openDb C st' m0 pass0 p = .ok hh) :
     hh.storeKey = h'.storeKey ∧ ∀ m', m0 = some m' → m' = m := by
-  obtain ⟨_, _, _, _, _, hs, _, _, ref, _, hparse, hmeth⟩ := rekey_ok L st st' h h' m pass rnd hr
+  obtain ⟨_, _, _, _, _, hs, _, _, ref, _, hparse, hmeth⟩ := rekey_ok g L st st' h h' m pass rnd hr
   refine ⟨open_storeKey_eq L st' _ hs m0 pass0 p hh ho, ?_⟩
   obtain ⟨ref', _, hp', hm, _⟩ := (openDb_ok_iff st' m0 pass0 p hh).mp ho
   rw [hparse] at hp'; cases hp'
@@ -479,10 +485,10 @@ theorem rekey_then_open_only_new (L : C.Laws) (st st' : Store C I) (h h' : Handl
   exact ((compareMethod_iff ref m').mp (hm m' e)).symm.trans hmeth
 
 /-- all ordered pairs of methods: after a rekey to `m`, naming any other method is refused -/
-theorem rekey_other_method_refused (L : C.Laws) (st st' : Store C I) (h h' : Handle C) (m mOld : Method) (pass : PassKey)
-    (rnd : Rnd C) (hr : rekey C st h m pass rnd = (st', .ok h')) (hne : mOld ≠ m)
+theorem rekey_other_method_refused (g : Bool) (L : C.Laws) (st st' : Store C I) (h h' : Handle C) (m mOld : Method) (pass : PassKey)
+    (rnd : Rnd C) (hr : rekeyG g C st h m pass rnd = (st', .ok h')) (hne : mOld ≠ m)
     (pass0 : PassKey) (p : Option Str) : openDb C st' (some mOld) pass0 p = .error .input := by
-  obtain ⟨_, _, _, _, _, _, _, _, ref, _, hparse, hmeth⟩ := rekey_ok L st st' h h' m pass rnd hr
+  obtain ⟨_, _, _, _, _, _, _, _, ref, _, hparse, hmeth⟩ := rekey_ok g L st st' h h' m pass rnd hr
   have : methodMismatch ref (some mOld) = true := by
     simp only [methodMismatch, Bool.not_eq_true']
     cases hc : ref.compareMethod mOld with
@@ -492,23 +498,28 @@ theorem rekey_other_method_refused (L : C.Laws) (st st' : Store C I) (h h' : Han
 
 /-- after a successful rekey with a usable pass key, that (method, pass key) opens the store, on
     the same profile key -/
-theorem rekey_then_open (L : C.Laws) (st st' : Store C I) (h h' : Handle C) (m : Method) (pass : PassKey)
+theorem rekey_then_open (g : Bool) (L : C.Laws) (st st' : Store C I) (h h' : Handle C) (m : Method) (pass : PassKey)
     (rnd : Rnd C) (hsalt : rnd.salt.length = 16) (hraw : m = .raw → pass.str ≠ [])
-    (hr : rekey C st h m pass rnd = (st', .ok h'))
+    (hr : rekeyG g C st h m pass rnd = (st', .ok h'))
     (p : Option Str) (hex : (lookup (p.getD st'.defaultProfile) st'.profiles).isSome) :
     ∃ hh, openDb C st' (some m) pass p = .ok hh ∧ hh.storeKey = h'.storeKey := by
-  obtain ⟨_, _, _, _, _, hs, _, _, ref, hres, hparse, hmeth⟩ := rekey_ok L st st' h h' m pass rnd hr
+  obtain ⟨_, _, _, _, _, hs, _, _, ref, hres, hparse, hmeth⟩ := rekey_ok g L st st' h h' m pass rnd hr
   have := (open_iff_right_key L st' _ hs ref hparse (some m) pass p hex).mpr
     ⟨fun m' e => by cases e; exact hmeth, resolve_consistent m pass rnd _ ref hres hraw hsalt⟩
   obtain ⟨hh, ho⟩ := this
   exact ⟨hh, ho, open_storeKey_eq L st' _ hs _ _ _ hh ho⟩
 
-/-- the code path the property forbids: `rekey` with method raw and a blank pass key is NOT refused;
-    the store ends up sealed under the random key `rnd.key` -/
+/-- WITHOUT the guard (the tree before 9124dcd): `rekey` with method raw and a blank pass key is
+    not refused; the store ends up sealed under the random key `rnd.key` -/
 theorem rekey_blank_raw_accepted (st : Store C I) (h : Handle C) (pass : PassKey) (rnd : Rnd C) (hb : pass.str = [])
     (ps' : List (Str × C.Blob)) (hw : rewrap C h.storeKey (some rnd.key) rnd.nonce 0 st.profiles = .ok ps') :
-    rekey C st h .raw pass rnd = ({ st with profiles := ps', keyRef := sRaw }, .ok { h with storeKey := some rnd.key }) := by
-  simp [rekey, Method.resolve, hb, hw, KeyRef.toUri]
+    rekeyG false C st h .raw pass rnd = ({ st with profiles := ps', keyRef := sRaw }, .ok { h with storeKey := some rnd.key }) := by
+  simp [rekeyG, Method.resolve, hb, hw, KeyRef.toUri]
+
+/-- WITH the guard: a blank raw pass key is refused with `Input` and nothing is written -/
+theorem rekey_blank_raw_refused (st : Store C I) (h : Handle C) (pass : PassKey) (rnd : Rnd C) (hb : pass.str = []) :
+    rekeyG true C st h .raw pass rnd = (st, .error .input) := by
+  simp [rekeyG, hb]
 
 /-- default profile: `open` without a profile name activates the stored default -/
 theorem open_default_profile (st : Store C I) (m : Option Method) (pass : PassKey) (h : Handle C)
